@@ -114,7 +114,13 @@ func (g *gstate) unset(name string) {
 	g.steps = append(g.steps, Step{K: "unset", Name: rig.Hex(name)})
 	delete(g.lister, name)
 }
-func (g *gstate) sync(name string) { g.steps = append(g.steps, Step{K: "sync", Name: rig.Hex(name)}) }
+func (g *gstate) sync(name string) {
+	st := Step{K: "sync", Name: rig.Hex(name)}
+	if g.r.Intn(5) == 0 {
+		st.Ev = 1 + g.r.Intn(3) // the queue re-delivers a superseded event object
+	}
+	g.steps = append(g.steps, st)
+}
 
 func (g *gstate) existing() []string {
 	var l []string
